@@ -6,8 +6,6 @@ mod verif_kani_negate {
 
     //@@ span parser/src/grammar_builder.rs negate_span :: let (min, max) = (0u32, trie.vocab_size() as u32 - 1); ::: @block_end
 
-    //@@ span parser/src/grammar_builder.rs negate_loop_span :: let mut negated = vec![]; ::: @block_end
-
     struct ShimError;
     type Result<T> = core::result::Result<T, ShimError>;
     macro_rules! ensure {
@@ -125,77 +123,6 @@ mod verif_kani_negate {
             }
             assert!(in_neg == !in_input);
         }
-    }
-
-    /// the complement loop alone (real statements from `let mut negated = vec![];` to the end of the block), entered with an
-    /// arbitrary list that is sorted by start - what `sort_by_key(|r| *r.start())` (std, assumed) hands it
-    fn negate_sorted(trie: &ShimTrie, sorted: Vec<RangeInclusive<u32>>) -> Result<Vec<RangeInclusive<u32>>> {
-        let (min, max) = (0u32, trie.vocab_size() as u32 - 1);
-        let r = {
-            /*@@paste negate_loop_span*/
-        };
-        Ok(r)
-    }
-
-    fn run_sorted<const NR: usize>() {
-        let vocab: usize = kani::any();
-        kani::assume(vocab >= 1 && vocab <= u32::MAX as usize);
-        let mut input: Vec<RangeInclusive<u32>> = Vec::with_capacity(NR);
-        let mut bounds = [(0u32, 0u32); NR];
-        let mut i = 0;
-        while i < NR {
-            let a: u32 = kani::any();
-            let b: u32 = kani::any();
-            if i > 0 {
-                kani::assume(bounds[i - 1].0 <= a);
-            }
-            bounds[i] = (a, b);
-            input.push(a..=b);
-            i += 1;
-        }
-        let trie = ShimTrie { vocab };
-        let mut legal = true;
-        let mut i = 0;
-        while i < NR {
-            legal = legal && bounds[i].0 <= bounds[i].1 && (bounds[i].1 as usize) < vocab;
-            i += 1;
-        }
-        let r = negate_sorted(&trie, input);
-        kani::cover!(r.is_ok());
-        if NR >= 2 {
-            // partially overlapping neighbours are inside the domain
-            kani::cover!(r.is_ok() && bounds[1].0 > bounds[0].0 && bounds[1].0 <= bounds[0].1 && bounds[1].1 > bounds[0].1);
-        }
-        assert!(r.is_ok() == legal);
-        if let Ok(neg) = r {
-            let t: u32 = kani::any();
-            kani::assume((t as usize) < vocab);
-            let mut in_input = false;
-            let mut i = 0;
-            while i < NR {
-                in_input = in_input || (bounds[i].0 <= t && t <= bounds[i].1);
-                i += 1;
-            }
-            let mut in_neg = false;
-            let mut j = 0;
-            while j < neg.len() {
-                assert!(neg[j].start() <= neg[j].end() && (*neg[j].end() as usize) < vocab);
-                in_neg = in_neg || neg[j].contains(&t);
-                j += 1;
-            }
-            assert!(in_neg == !in_input);
-        }
-    }
-
-    #[kani::proof]
-    #[kani::unwind(6)]
-    fn negate_sorted_2() {
-        run_sorted::<2>();
-    }
-    #[kani::proof]
-    #[kani::unwind(7)]
-    fn negate_sorted_3() {
-        run_sorted::<3>();
     }
 
     // vacuity guard (must FAIL): claims the complement is always a single range
